@@ -107,7 +107,7 @@ Theorem window_mss_learned_only_from_segments : forall cx g s ip r s' reply tags
   learned s r s'.
 Proof.
   intros cx g s ip r s' reply tags Hinv Hcx Hr H.
-  destruct (ingress_inv _ _ _ _ _ _ _ _ Hinv Hcx Hr H) as (g' & _ & _ & L). exact L.
+  destruct (ingress_inv _ _ _ _ _ _ _ _ Hinv Hcx Hr H) as (g' & _ & _ & L & _). exact L.
 Qed.
 
 (* the MSS taken from a SYN: the announced value, raised to MIN_REMOTE_MSS; 0 or absent leaves
